@@ -27,6 +27,7 @@ Definition m_split_lines : string -> list string := split_lines.
 Definition m_diff_lines : list string -> list string -> option string := diff_lines.
 Definition s_flm_ok : list string -> list string -> nat -> nat -> nat -> nat -> mtch -> bool := flm_okb String.eqb.
 Definition s_flm_max : list string -> list string -> nat -> nat -> nat -> nat -> mtch -> bool := flm_maxb String.eqb.
+Definition s_flm_first : list string -> list string -> nat -> nat -> nat -> nat -> mtch -> bool := flm_firstb String.eqb.
 Definition s_blocks_ok (a b : list string) (ms : list mtch) : bool := blocks_okb String.eqb a b 0 0 ms.
 Definition s_tiles_ok (a b : list string) (cs : list opcode) : bool :=
   tiles_okb String.eqb a b 0 0 cs (List.length a) (List.length b).
@@ -34,5 +35,5 @@ Definition s_patch_lines : list string -> list string -> list (hunk string) -> b
 Definition s_empty_iff_lines : list string -> list string -> string -> bool := spec_empty_iff_lines.
 
 Extraction "diffmodel.ml" m_flm m_blocks m_opcodes m_groups m_format_range m_split_lines m_diff_lines
-  s_flm_ok s_flm_max s_blocks_ok s_tiles_ok s_patch_lines s_empty_iff_lines m_diff m_diffmatch_empty m_render_items
+  s_flm_ok s_flm_max s_flm_first s_blocks_ok s_tiles_ok s_patch_lines s_empty_iff_lines m_diff m_diffmatch_empty m_render_items
   s_parse s_empty_iff s_patch s_headers s_context s_changes s_lines.
